@@ -617,7 +617,7 @@ def rule_result_binding(ctx, table=None, cfg='prod-all', only=None):
             srcs = {body.local_name(strip(x)[1]) for x in atoms if strip(x)[0] == 'p'}
             exact_eq = False
             for g in ga.block_gates(fd, bi):
-                if g.kind == 'call' and g.dom and g.truth is True and (g.callee or '').startswith(_EXACT_EQ) and (g.callee or '').endswith('::eq'):
+                if g.kind == 'call' and g.dom is True and g.truth is True and (g.callee or '').startswith(_EXACT_EQ) and (g.callee or '').endswith('::eq'):
                     gs = {body.local_name(strip(x)[1]) for x in g.all_atoms() if strip(x)[0] == 'p'}
                     if {'old_message', 'new_message'} <= gs:
                         exact_eq = True
